@@ -155,6 +155,11 @@ def gen_quic_conn(R, cid, cfg, used, **epkw):
             pk0["frames"].insert(A.below(len([x for x in pk0["frames"] if x[0] != "stream" or x[4]]) + 1) if False else 0,
                                  ["nst", A.range(20, 200)])
         script.append(fl)
+    if script and script[-1].get("c") and script[-1].get("s") and A.chance(cfg.get("close_pct", 20)):
+        # one side closes the connection with a TLS alert (CONNECTION_CLOSE 0x1c, CRYPTO_ERROR) while packets of the
+        # other side are still in flight and pass the tap afterwards
+        d = A.choice("cs")
+        script[-1][d][0]["pk"][0]["frames"].insert(0, ["close", 0x0100 + A.below(256)])
     q["script"] = script
     if A.chance(cfg.get("one_way_pct", 8)):
         # one-way tap / asymmetric routing: after the handshake the capture sees only one direction's datagrams
@@ -262,7 +267,7 @@ def _enc_frames(R, specs, side: Side, st, meta):
             out += Q.f_handshake_done()
             meta.append({"n": "HandshakeDoneFrame"})
         elif k == "close":
-            out += Q.f_close(False, 0, 0, b"bye")
+            out += Q.f_close(False, f[1] if len(f) > 1 else 0, 0x06, b"bye")
             meta.append({"n": "ConnectionCloseFrame"})
         else:
             w = f[4] or None
@@ -325,6 +330,11 @@ def build_units(conn):
     odcid = R.fork("odcid").bytes(q["dcid_len"])
     C.scid = R.fork("cscid").bytes(q["scid_c_len"])
     S.scid = R.fork("sscid").bytes(q["scid_s_len"])
+    # connection ids are chosen independently by every endpoint: a long id may begin with another connection's short id
+    for sd, k in ((C, "scid_c_prefix"), (S, "scid_s_prefix")):
+        if q.get(k):
+            pre = bytes.fromhex(q[k])[:len(sd.scid)]
+            sd.scid = pre + sd.scid[len(pre):]
     C.dcid = odcid
     C.issued = [C.scid]
     S.issued = [S.scid]
